@@ -776,14 +776,20 @@ fn c05_scenario_c(btree: bool, split_pipeline: bool, big: bool, two_cols: bool) 
 /// `reuse`: T1 removes k1, T2 stores k2 with a value of k1's size class: k2 takes over the slot(s) k1's value
 /// occupied (a chain of slots when `big`); a reader must never get k2's bytes for k1.
 fn c05_scenario_k(btree: bool, split_pipeline: bool, big: bool, two_cols: bool, reuse: bool) -> impl Fn() + Sync + Send + 'static {
+	c05_scenario_d(btree, split_pipeline, big, two_cols, reuse, false)
+}
+
+/// `drift`: the handle under test was opened on a directory whose log held a flushed, unapplied record (the state a
+/// crash leaves): replay consumed record id 1 while the commit id counter starts again at 0, so that commit ids and
+/// record ids differ for the rest of the handle's life (reindex records cause the same drift).
+fn c05_scenario_d(btree: bool, split_pipeline: bool, big: bool, two_cols: bool, reuse: bool, drift: bool) -> impl Fn() + Sync + Send + 'static {
 	move || {
 		let c2: u8 = if two_cols { 1 } else { 0 };
 		ITER.fetch_add(1, Ordering::SeqCst);
 		let dir = fresh_dir();
 		parity_db::verif::set_external_workers(true);
 		let col = ColumnOptions { btree_index: btree, ..Default::default() };
-		let opts = options(&dir, if two_cols { vec![col.clone(), col] } else { vec![col] }, false);
-		let db = Arc::new(Db::open_or_create(&opts).expect("open"));
+		let opts = options(&dir, if two_cols { vec![col.clone(), col.clone()] } else { vec![col.clone()] }, false);
 		// version -> value of (k1, k2); version 0 is the enacted pre-state
 		let b2 = if big { 40_000 } else { 300 };
 		let versions: Arc<Vec<(Option<Vec<u8>>, Option<Vec<u8>>)>> = Arc::new(if reuse {
@@ -796,11 +802,33 @@ fn c05_scenario_k(btree: bool, split_pipeline: bool, big: bool, two_cols: bool, 
 				(Some(val(10, 5)), None),
 			]
 		});
-		db.commit(vec![(0u8, key(1), versions[0].0.clone()), (c2, key(2), versions[0].1.clone())].into_iter().filter(|(_, _, v)| v.is_some()).collect::<Vec<_>>()).unwrap();
-		db.process_commits().unwrap();
-		db.flush_logs().unwrap();
-		db.enact_logs().unwrap();
-		db.clean_logs().unwrap();
+		let v0: Vec<(u8, Vec<u8>, Option<Vec<u8>>)> = vec![(0u8, key(1), versions[0].0.clone()), (c2, key(2), versions[0].1.clone())].into_iter().filter(|(_, _, v)| v.is_some()).collect();
+		let db = if drift {
+			let d0 = fresh_dir();
+			let o0 = options(&d0, if two_cols { vec![col.clone(), col.clone()] } else { vec![col.clone()] }, false);
+			let a = Db::open_or_create(&o0).expect("open");
+			a.commit(v0.clone()).unwrap();
+			a.process_commits().unwrap();
+			a.flush_logs().unwrap();
+			for e in std::fs::read_dir(&d0).unwrap().filter_map(|e| e.ok()) {
+				if e.file_name() != "lock" {
+					std::fs::copy(e.path(), dir.join(e.file_name())).unwrap();
+				}
+			}
+			drop(a);
+			let db = Arc::new(Db::open(&opts).expect("open of the crash image"));
+			let d = db.verif_digest();
+			assert!(d.next_record_id == 2 && d.commit_id_counter == 0, "harness: after replay the record id counter must be ahead of the commit id counter ({} / {})", d.next_record_id, d.commit_id_counter);
+			db
+		} else {
+			let db = Arc::new(Db::open_or_create(&opts).expect("open"));
+			db.commit(v0.clone()).unwrap();
+			db.process_commits().unwrap();
+			db.flush_logs().unwrap();
+			db.enact_logs().unwrap();
+			db.clean_logs().unwrap();
+			db
+		};
 		let committed = Arc::new(loom::sync::atomic::AtomicUsize::new(0));
 		let w = {
 			let (db, versions, committed) = (db.clone(), versions.clone(), committed.clone());
@@ -1368,6 +1396,8 @@ fn run_child(prop: &str, tier: &str, idx: usize) -> Outcome {
 		("C05", 10) => explore("real-workers/log+flush+commit", 1, wall, c05_real_workers(0b0111)),
 		("C05", 11) if !quick => explore("real-workers/all-four", 1, wall, c05_real_workers(0b1111)),
 		("C05", 12) if !quick => explore("real-workers/log+flush+commit", 2, wall, c05_real_workers(0b0111)),
+		("C05", 16) => explore("hash/record-ids-ahead-of-commit-ids", 2, wall, c05_scenario_d(false, false, false, false, false, true)),
+		("C05", 17) if !quick => explore("btree/record-ids-ahead-of-commit-ids+split-pipeline", 2, wall, c05_scenario_d(true, true, false, false, false, true)),
 		("C05", 13) => explore("hash/slot-reuse-by-another-key", 2, wall, c05_scenario_k(false, false, false, false, true)),
 		("C05", 14) => explore("hash/multipart-chain-reuse-by-another-key", 1, wall, c05_scenario_k(false, false, true, false, true)),
 		("C05", 15) if !quick => explore("hash/multipart-chain-reuse-by-another-key", 2, wall, c05_scenario_k(false, true, true, false, true)),
